@@ -289,3 +289,37 @@ def _kernel_test(kind, rates, counts, num_simulations=1, random_numbers=None, se
     if outs[0] != outs[1]:
         bad.append('seed=%r is not honoured: two runs with the same seed give %r and %r' % (seed, outs[0][2][:4], outs[1][2][:4]))
     return bad
+
+
+@oracle('cell_maps')
+def _cell_maps(kind, rates, counts, forecast_total, n_events):
+    """poisson_spatial_likelihood / binary_spatial_likelihood on stub forecast / catalog objects: per-cell log-likelihoods of the
+    forecast rates scaled to the observed number of events"""
+    from csep.core import poisson_evaluations as pe
+    R = numpy.asarray(rates, dtype=float)
+    C = numpy.asarray(counts, dtype=float)
+    if R.shape != C.shape or R.size == 0 or numpy.any(R <= 0) or numpy.any(C < 0) or not forecast_total > 0 or n_events < 0:
+        return []
+
+    class Stub:
+        def __init__(self, arr, total):
+            self._a, self.event_count = arr, total
+
+        def spatial_counts(self):
+            return self._a.copy()
+    f = pe.binary_spatial_likelihood if kind == 'binary' else pe.poisson_spatial_likelihood
+    out = call(f, Stub(R, float(forecast_total)), Stub(C, n_events))
+    if out[0] == 'raise':
+        return ['unexpected exception ' + _exc(out)]
+    got = numpy.asarray(out[1], dtype=float)
+    lam = R * (float(n_events) / float(forecast_total))
+    if kind == 'binary':
+        with numpy.errstate(divide='ignore', invalid='ignore'):
+            exp = numpy.where(C != 0, numpy.log(-numpy.expm1(-lam)), -lam)
+    else:
+        with numpy.errstate(divide='ignore', invalid='ignore'):
+            wlog = numpy.where(C > 0, C * numpy.log(lam), 0.0)          # a cell without events has no w*ln(x) term
+        exp = -lam + wlog - numpy.array([math.lgamma(x + 1) for x in C.tolist()])
+    if got.shape != exp.shape or not numpy.allclose(got, exp, rtol=1e-9, atol=1e-12, equal_nan=True):
+        return ['per-cell scores %r, definition gives %r (rates %r, counts %r)' % (got.tolist(), exp.tolist(), lam.tolist(), C.tolist())]
+    return []
